@@ -223,7 +223,7 @@ def main(tier):
         reached.update(o["reached"])
     for can, o in zip(CANARIES, outs[len(S):]):
         ref = o[0] == "ok" and not o[1]["error"] and any(r["status"] != "proved" for r in o[1]["results"])
-        ck.canaries.append((f"{can[0]}: {can[2][:40]!r} -> {can[3][:40]!r}", ref))
+        ck.canary(f"{can[0]}: {can[2][:40]!r} -> {can[3][:40]!r}", ref, o)
     for f in ["jaxley.utils.cell_utils.compute_axial_conductances", "jaxley.utils.cell_utils.compute_coupling_cond", "jaxley.utils.cell_utils.compute_coupling_cond_branchpoint",
               "jaxley.utils.cell_utils.compute_impact_on_node", "jaxley.solver_voltage.step_voltage_implicit_with_jax_spsolve", "jaxley.modules.base.Module._get_external_input",
               "jaxley.utils.cell_utils.convert_point_process_to_distributed"]:
